@@ -83,6 +83,10 @@ func c04Value(depth int) value.Value {
 	case 8:
 		return value.NewLongSummary()
 	case 9:
+		if simrt.Chance(1, 40) {
+			// long enough for the 4-byte (marker 254) length form
+			return value.NewTextValue(c04Text([]int{65535, 65536, 70000}[simrt.Choose(3)]))
+		}
 		return value.NewTextValue(c04Text([]int{0, 1, 5, 40, 253, 254, 300}[simrt.Choose(7)]))
 	case 10:
 		return value.NewTextHashValue(int32(simrt.Choose(1 << 30)))
@@ -469,6 +473,16 @@ func c04Body(rc *RunCtx) {
 			copy(mut, enc)
 			mut[i] = 254 // blob 4-byte length form
 			check("blob254", i, mut)
+		}
+		if i+5 <= n {
+			// blob/text marker 254 followed by a hostile 4-byte length, incl. values whose sum
+			// with the current read offset overflows int32
+			for _, v := range []uint32{0x7fffffff, 0x7ffffff0, 0x7fffff00, 0x40000000} {
+				copy(mut, enc)
+				mut[i] = 254
+				binary.BigEndian.PutUint32(mut[i+1:], v)
+				check(fmt.Sprintf("blob254+len=%#x", v), i, mut)
+			}
 		}
 	}
 }
